@@ -343,14 +343,13 @@ func C16(p *core.Program, r *core.Report) {
 	if ap := mustInl(p, r, "Q3", core.ModPath+".Apply"); ap != nil {
 		n := 0
 		okAll := true
+		fcs := finderCalls(p, ap)
 		for _, b := range ap.Blocks {
 			for _, in := range b.Instrs {
 				if st, ok := in.(*ssa.Store); ok && c.Of(st.Addr) == "&new(distiller.Result).PaginationInfo" {
 					n++
 					// every alternative that can be stored is the answer of one of the two finders
-					if !allPhiLeaves(st.Val, func(v ssa.Value) bool {
-						return core.IsCallValue("(*"+paginationPkg+".PrevNextFinder).FindPagination", "(*"+paginationPkg+".PageNumberFinder).FindPagination")(v)
-					}, map[ssa.Value]bool{}) {
+					if !allPhiLeaves(st.Val, func(v ssa.Value) bool { return isFinderResult(fcs, v) }, map[ssa.Value]bool{}) {
 						okAll = false
 					}
 				}
@@ -359,15 +358,21 @@ func C16(p *core.Program, r *core.Report) {
 		r.Add("Q3", "Result.PaginationInfo comes from the two finders only", p.Pos(ap.Pos()), okAll && n >= 1, fmt.Sprintf("%d stores", n))
 		// Q4: "same site" is the site of the page URL the caller supplied: both finders are given
 		// Options.OriginalURL itself (not a URL derived from the document)
-		nFind, badArg := 0, ""
-		for _, call := range core.Calls(ap, func(ci ssa.CallInstruction) bool {
-			return core.IsCallTo(ci, "(*"+paginationPkg+".PrevNextFinder).FindPagination", "(*"+paginationPkg+".PageNumberFinder).FindPagination")
-		}) {
-			nFind++
-			if u := c.Of(call.Common().Args[2]); !strings.HasSuffix(u, ".OriginalURL") || !strings.Contains(u, "$1") {
+		badArg := ""
+		finders := map[*ssa.Function]bool{}
+		for _, fc := range fcs {
+			for _, callee := range fc.callees {
+				finders[callee] = true
+			}
+			if len(fc.args) < 2 {
+				badArg = "?"
+				continue
+			}
+			if u := c.Of(fc.args[1]); !strings.HasSuffix(u, ".OriginalURL") || !strings.Contains(u, "$1") {
 				badArg = u
 			}
 		}
+		nFind := len(finders)
 		r.Add("Q4", "the pagination finders are given the caller's page URL", p.Pos(ap.Pos()), nFind == 2 && badArg == "", fmt.Sprintf("%d finder calls; other URL: %s", nFind, badArg))
 	}
 	if pf := mustInl(p, r, "Q3", "(*"+paginationPkg+".PrevNextFinder).FindPagination"); pf != nil {
